@@ -2,8 +2,11 @@ package rules
 
 import (
 	"go/constant"
+	"go/token"
 	"go/types"
+	"golang.org/x/tools/go/ssa/ssautil"
 	"strings"
+	"sync"
 
 	"golang.org/x/tools/go/ssa"
 
@@ -108,13 +111,80 @@ func callbackName(ci ssa.CallInstruction) string {
 			}
 		}
 	}
+	// ... however it reached the call (a parameter that receives Server.types, a range variable): a value of the
+	// extension function type func(*pgtype.Map)
+	if sig, ok := cc.Value.Type().Underlying().(*types.Signature); ok && sig.Params().Len() == 1 && sig.Results().Len() == 0 {
+		if pt, ok := sig.Params().At(0).Type().Underlying().(*types.Pointer); ok && core.IsNamed(pt.Elem(), "github.com/jackc/pgx/v5/pgtype", "Map") {
+			return "extendTypes"
+		}
+	}
 	switch v := cc.Value.(type) {
 	case *ssa.FreeVar:
 		return "freevar:" + v.Name()
 	case *ssa.Parameter:
+		// a hook handed to a private helper as an argument (handleConnTerminate(ctx, srv.TerminateConn)): the field
+		// every caller passes
+		if name := hookOfParam(v); name != "" {
+			return name
+		}
 		return "param:" + v.Name()
 	}
 	return "dynamic"
+}
+
+var (
+	hookSitesOnce sync.Once
+	hookSites     map[*ssa.Function][]ssa.CallInstruction
+)
+
+// hookOfParam: the callback name of the Server field that every static call site passes for parameter p ("" if the
+// call sites disagree, pass something else, or the function can be reached other than by a static call).
+func hookOfParam(p *ssa.Parameter) string {
+	fn := p.Parent()
+	if fn == nil || fn.Prog == nil || token.IsExported(fn.Name()) {
+		return ""
+	}
+	hookSitesOnce.Do(func() {
+		hookSites = map[*ssa.Function][]ssa.CallInstruction{}
+		for f := range ssautil.AllFunctions(fn.Prog) {
+			for _, b := range f.Blocks {
+				for _, in := range b.Instrs {
+					if ci, ok := in.(ssa.CallInstruction); ok {
+						if callee := core.StaticCallee(ci); callee != nil {
+							hookSites[callee] = append(hookSites[callee], ci)
+						}
+					}
+				}
+			}
+		}
+	})
+	idx := -1
+	for i, q := range fn.Params {
+		if q == p {
+			idx = i
+		}
+	}
+	sites := hookSites[fn]
+	if idx < 0 || len(sites) == 0 {
+		return ""
+	}
+	name := ""
+	for _, site := range sites {
+		a := site.Common().Args
+		if idx >= len(a) {
+			return ""
+		}
+		fr, ok := core.FieldOfValue(a[idx])
+		if !ok || fr.Struct == nil || fr.Struct.Obj().Pkg() == nil || fr.Struct.Obj().Pkg().Path() != pkWire || fr.Struct.Obj().Name() != "Server" {
+			return ""
+		}
+		n := map[string]string{"parse": "parse", "Session": "session", "Auth": "auth", "TerminateConn": "terminate", "CloseConn": "closeconn", "Statements": "newStatementCache", "Portals": "newPortalCache"}[fr.Name]
+		if n == "" || (name != "" && name != n) {
+			return ""
+		}
+		name = n
+	}
+	return name
 }
 
 func (tc *traceClient) emit(x *core.TSCtx, site ssa.Instruction, open, q, ev string) string {
